@@ -127,6 +127,26 @@ func c06R1(c *Ctx) {
 	if n == 0 {
 		c.Violation(name, p.Pos(g.gate.Pos()), "no-callback-path", "the gate never reaches the callbacks")
 	}
+	// the sequence comparisons come after the identity/time checks too: a too-high result
+	// stashes the message, and the stash is replayed in the recovery state where the
+	// SendingTime check is exempt — a stale message must be refused before it can be stashed
+	for _, cl := range Calls(g.gate) {
+		cal := cl.Common().StaticCallee()
+		if cal != g.tooLow && cal != g.tooHigh {
+			continue
+		}
+		d := p.ReachCond(cl.Block())
+		okB := d.Implies(isNilOf(ids.begin))
+		okC := d.Implies(isNilOf(ids.comp))
+		okT := d.Implies(func(a *Atom) bool {
+			if isNilOf(ids.time)(a) {
+				return true
+			}
+			return a.Rel == "" && a.Val && a.B.Kind == "typeassert" && a.B.Res == 1 && types.Identical(a.B.AssTyp, rs)
+		})
+		c.Check(okB && okC && okT, name, p.InstrPos(cl), "checks-before-sequence:"+cal.Name(), "sequence comparison reached only after BeginString, CompID and SendingTime checks passed",
+			fmt.Sprintf("the %s comparison runs before a session-level check has passed (BeginString=%v CompID=%v SendingTime-or-replay=%v): a message failing that check but numbered too high is stashed instead of rejected, and is later delivered from the stash in the recovery state, where the SendingTime check is exempt", cal.Name(), okB, okC, okT))
+	}
 	// OnLogon
 	app := p.Named(modPath, "Application")
 	for _, cs := range p.InvokeSites(app, "OnLogon") {
